@@ -131,3 +131,78 @@ Proof.
   - split; [reflexivity|]. cbn. auto.
 Qed.
 End Frame.
+
+(* ------------------------------------------------------------------ aarch64: the same statement *)
+From FH Require Import A64 A64Dwarf A64Unw.
+Section FrameA.
+Variables lo hi s : N.
+Hypothesis Hlo : 2 * DIST <= lo.
+Hypothesis Hlh : lo <= hi.
+Hypothesis Hov : hi + s + 2 * DIST < W64.
+Variable k : N.
+Hypothesis Hmask : forall v, v <= hi + s -> strip k v = v.
+
+Notation arel := (arel lo hi s k).
+Notation avok := (avok lo hi s k).
+Notation shm := (shm lo hi s).
+Notation aout_rel := (aout_rel lo hi s k).
+Definition aspok (rg : aregs) : Prop := lo <= asp rg /\ asp rg + s + 2 * DIST < W64.
+
+Definition cb_rel_a (r r' : cb_result arule aregs * eff) : Prop :=
+  snd r = snd r' /\
+  match fst r, fst r' with
+  | CbRule a, CbRule b => a = b /\ arule_wf a = true
+  | CbErr g, CbErr g' => arel g g' /\ avok g /\ aspok g
+  | _, _ => False
+  end.
+
+Lemma aout_other rg rg' (r : res (option N)) : arel rg rg' -> avok rg ->
+  match r with Ok _ => False | _ => True end -> aout_rel (r, rg) (r, rg').
+Proof.
+  intros Hr Hv Hk. unfold ShiftFacts.aout_rel; cbn [fst snd]. split; [|split; assumption].
+  destruct r as [o|e|p|]; try contradiction; cbn; [left; reflexivity | reflexivity | exact I].
+Qed.
+
+Theorem unwind_frame_a_stack_shift (u : aunwinder) (c : acache) a rg rg' m :
+  mem_ok_a lo hi s k m -> arel rg rg' -> avok rg -> aspok rg ->
+  (forall x r c1, lookup_address a = Ok x -> cache_lookup arule c x (gen _ u) = (Hit arule r, c1) -> arule_wf r = true) ->
+  (forall x md rel, lookup_address a = Ok x -> find_module amdata (mods _ u) x = Ok (Some (md, rel)) ->
+     cb_rel_a (cb_a64 md (negb (is_ra a)) rel rg m) (cb_a64 md (negb (is_ra a)) rel rg' (shm m))) ->
+  let o := unwind_frame_a u c a rg m in
+  let o' := unwind_frame_a u c a rg' (shm m) in
+  aout_rel (o_res _ _ o, o_regs _ _ o) (o_res _ _ o', o_regs _ _ o') /\
+  o_cache _ _ o = o_cache _ _ o' /\ o_eff _ _ o = o_eff _ _ o'.
+Proof.
+  intros Hm Hr Hv [Hs1 Hs2] Hhit Hcb o o'. subst o o'. unfold unwind_frame_a, unwind_frame.
+  assert (Fb : arule_wf afallback_rule = true) by reflexivity.
+  destruct (lookup_address a) as [x|e|p|] eqn:Ea; cbn [o_res o_regs o_cache o_eff];
+    try (split; [apply aout_other; try assumption; exact I | split; reflexivity]).
+  specialize (Hhit x). specialize (Hcb x).
+  destruct (cache_lookup arule c x (gen amdata u)) as [[r|slot] c1] eqn:Ec.
+  - pose proof (aexec_stack_shift lo hi s Hlo Hlh Hov k Hmask r (negb (is_ra a)) rg rg' m Hm (Hhit r c1 eq_refl eq_refl) Hr Hv Hs1 Hs2) as E.
+    destruct (aexec r (negb (is_ra a)) rg m) as [q g]. destruct (aexec r (negb (is_ra a)) rg' (shm m)) as [q' g'].
+    cbn [o_res o_regs o_cache o_eff]. split; [exact E | split; reflexivity].
+  - destruct (find_module amdata (mods amdata u) x) as [[[md rel]|]|e|p|] eqn:Ef;
+      try (split; [apply aout_other; try assumption; exact I | split; reflexivity]).
+    + specialize (Hcb md rel eq_refl eq_refl). destruct Hcb as [He Hk].
+      destruct (cb_a64 md (negb (is_ra a)) rel rg m) as [kk ef]. destruct (cb_a64 md (negb (is_ra a)) rel rg' (shm m)) as [kk' ef'].
+      cbn [fst snd] in *. subst ef'.
+      destruct kk as [r|ra g|g|g|p|]; destruct kk' as [r'|ra' g'|g'|g'|p'|]; try contradiction.
+      * destruct Hk as [<- Hw].
+        pose proof (aexec_stack_shift lo hi s Hlo Hlh Hov k Hmask r (negb (is_ra a)) rg rg' m Hm Hw Hr Hv Hs1 Hs2) as E.
+        destruct (aexec r (negb (is_ra a)) rg m) as [q g]. destruct (aexec r (negb (is_ra a)) rg' (shm m)) as [q' g'].
+        cbn [o_res o_regs o_cache o_eff]. split; [exact E | split; reflexivity].
+      * destruct Hk as (Kr & Kv & Ks1 & Ks2).
+        pose proof (aexec_stack_shift lo hi s Hlo Hlh Hov k Hmask afallback_rule (negb (is_ra a)) g g' m Hm Fb Kr Kv Ks1 Ks2) as E.
+        destruct (aexec afallback_rule (negb (is_ra a)) g m) as [q g1]. destruct (aexec afallback_rule (negb (is_ra a)) g' (shm m)) as [q' g1'].
+        cbn [o_res o_regs o_cache o_eff]. split; [exact E | split; reflexivity].
+    + pose proof (aexec_stack_shift lo hi s Hlo Hlh Hov k Hmask afallback_rule (negb (is_ra a)) rg rg' m Hm Fb Hr Hv Hs1 Hs2) as E.
+      destruct (aexec afallback_rule (negb (is_ra a)) rg m) as [q g]. destruct (aexec afallback_rule (negb (is_ra a)) rg' (shm m)) as [q' g'].
+      cbn [o_res o_regs o_cache o_eff]. split; [exact E | split; reflexivity].
+Qed.
+
+Lemma cb_rel_a_none (md : amodule) first rel rg rg' m :
+  (mdat md = AMNone \/ mdat md = AMPe) -> arel rg rg' -> avok rg -> aspok rg ->
+  cb_rel_a (cb_a64 md first rel rg m) (cb_a64 md first rel rg' (shm m)).
+Proof. intros [Hd|Hd] Hr Hv Hs; unfold cb_a64; rewrite Hd; (split; [reflexivity|]); cbn; auto. Qed.
+End FrameA.
